@@ -266,6 +266,9 @@ SELFTEST = {
         {"name": "density evaluated at the raw radius", "file": "pyrex/earth_model.py", "old": "np.piecewise(r/self.earth_radius,", "new": "np.piecewise(r,", "rule": "R15b"},
     ],
     "benign": [
+        {"name": "slant depth remembered per chord AND step (a completely keyed memo: the memo rule must stay silent)", "file": "pyrex/earth_model.py", "silent": ["R15u"],
+         "old": "        return 100 * trapz(rhos*distance, ts)",
+         "new": "        key = (tuple(endpoint), tuple(direction), step)\n        if key in self._memo:\n            return self._memo[key]\n        self._memo[key] = 100 * trapz(rhos*distance, ts)\n        return self._memo[key]"},
         {"name": "discriminant terms reordered", "file": "pyrex/earth_model.py", "old": "        distance = -dot_prod + np.sqrt(discriminant)", "new": "        distance = np.sqrt(discriminant) - dot_prod"},
     ],
 }
